@@ -1,6 +1,6 @@
 From Coq Require Import List Arith ZArith.
 Import ListNotations.
-From UJ Require Import Cache.Logical Cache.StaleSpec.
+From UJ Require Import Cache.Logical Cache.StaleSpec Cache.RunProofs Cache.HistoryProofs Cache.SettleProofs.
 
 (** The stale set of [_get_stale_nodes] is exactly the set of out-of-date nodes of the declarative
     specification [utd] (present; everything it is directly built from is up to date and not newer;
@@ -14,3 +14,30 @@ Theorem C05_stale_iff_out_of_date :
    is_stale reg sg fresh p n = true <-> (exists m : nat, upstream reg p n m /\ ~ utd reg sg fresh p m)).
 Proof. exact stale_iff_out_of_date. Qed.
 Print Assumptions C05_stale_iff_out_of_date.
+
+(** ... and exactly the out-of-date stored (non-source) values are rewritten. *)
+Theorem C05_writes_exact :
+  forall (reg : registry) (sg : sstate) (fresh : option Z) (p : plan) (n : nat),
+  wf_plan p -> n < length p ->
+  (is_written reg sg fresh p n = true <->
+   exists e, reg n = Some e /\ is_src e = false /\ ~ utd reg sg fresh p n).
+Proof. exact writes_exact. Qed.
+Print Assumptions C05_writes_exact.
+
+(** A run repeated immediately after a complete one, with no output requested, finds nothing stale and
+    performs no write, no call and no read - provided no source was out of date (reading: a missing
+    source, or a dependent source nobody refreshes, stays out of date, and with it its dependents). *)
+Theorem C05_idempotent :
+  forall (F : nat -> list Z -> Z) (reg : registry) (p : plan),
+  wf_plan p -> reg_inj reg -> reg_dom reg p ->
+  forall (sg : sstate) (fresh : option Z) (tw : nat -> Z),
+  tw_ok sg tw -> (forall i j, down p i j -> (tw i < tw j)%Z) -> (forall n, gt_opt fresh (tw n) = false) ->
+  (forall m, is_written reg sg fresh p m = true -> value_of F reg sg fresh p m <> None) ->
+  (forall m e, reg m = Some e -> is_src e = true -> is_stale reg sg fresh p m = false) ->
+  let sg' := after_run F reg sg fresh p tw in
+  forall n, is_stale reg sg' fresh p n = false /\
+            is_written reg sg' fresh p n = false /\
+            is_exec reg sg' fresh None p n = false /\
+            is_read reg sg' fresh None p n = false.
+Proof. exact repeated_run_does_nothing. Qed.
+Print Assumptions C05_idempotent.
